@@ -55,7 +55,8 @@ def to_native(kind, v):
         return int(v)
     if isinstance(kind, kinds.KBool):
         return bool(v)
-    if isinstance(kind, kinds.KObj) and isinstance(v, (list, tuple)) and (len(v) == 0 or isinstance(v[0], (list, tuple))):
+    if isinstance(kind, kinds.KObj) and isinstance(v, (list, tuple)) and all(isinstance(r, (list, tuple)) and len(r) == 2 and
+                                                                            all(isinstance(x, (int, float)) for x in r) for r in v):
         return np.array(v, dtype=float).reshape((-1, 2))        # an opaque interval array
     return v
 
@@ -65,6 +66,8 @@ def opaque(x):
     import numpy as np
     if isinstance(x, np.ndarray):
         return tuple(tuple(float(y) for y in row) for row in x.tolist())
+    if isinstance(x, (list, tuple)):
+        return tuple(opaque(y) for y in x)          # nested opaque data (e.g. a pattern: occurrences of (onset, midi) pairs)
     return x
 
 
@@ -174,7 +177,15 @@ def _replay_function(qual, inputs, registry=None):
         failed.append('frame: argument %s was modified by the call' % k)
     # evaluate the contract concretely on the ORIGINAL arguments
     st = St()
-    env = {p: (opaque(before[p]) if isinstance(c.param_kinds.get(p), kinds.KObj) else lift(before[p], st)) for p in before}
+    def contract_value(p):
+        k = c.param_kinds.get(p)
+        if isinstance(k, kinds.KObj):
+            return opaque(before[p])
+        if isinstance(k, kinds.KList) and isinstance(k.elem, kinds.KObj) and isinstance(before[p], list) and \
+                any(isinstance(y, (list, tuple)) for y in before[p]):
+            return new_ref(st, ListV([opaque(y) for y in before[p]]))       # a list of opaque objects
+        return lift(before[p], st)
+    env = {p: contract_value(p) for p in before}
     mod, fd = frontend.function(c.target)
     dflt = frontend.defaults(fd)
     import ast
